@@ -148,7 +148,7 @@ func (d *dchain) queryABCI(ctx sdk.Context, req abci.RequestQuery) (abci.Respons
 func (r *runner) deliverScripts(scripts [][]action, owners []string) error {
 	for _, sc := range scripts {
 		priv, addrs := deliverKeys(owners)
-		u, err := newUniverseAt(r.u.Owners, r.u.Serials, r.u.Bodies, addrs)
+		u, err := newUniverseAt(r.u.Owners, r.u.Serials, r.u.Bodies, r.u.Foreign, addrs)
 		if err != nil {
 			return err
 		}
@@ -186,7 +186,7 @@ func (r *runner) deliverScripts(scripts [][]action, owners []string) error {
 			if err != nil {
 				return err
 			}
-			st := step{Ev: a.K, Signer: a.Signer, Mo: a.Mo, O: a.O, S: a.S, B: a.B, OK: res.OK, Stage: res.Stage,
+			st := step{Ev: a.K, Signer: a.Signer, Mo: a.Mo, O: a.O, S: a.S, B: a.B, Iss: u.issuerName(a), OK: res.OK, Stage: res.Stage,
 				Err: res.Err, Reg: ents, Sid: stateID(ents), HasQ: true, Q: d.queries(ctx, u, r.ps)}
 			if res.OK {
 				r.stats["accepted"]++
